@@ -1,7 +1,7 @@
 """C16 — blanks, comments and letter case of keywords never change a value."""
 import re
 from tools import common as C, wire
-from tools.gen import lines as L
+from tools.gen import lines as L, corpus
 
 LEAN_MODULES = ["SCP.C16", "SCP.Lex", "SCP.RegexLint"]
 THEOREMS = ["SCP.C16." + t for t in """lowerEq_congr_left tokFieldCompare_case tokEq_case infoEq_case findMatch_case readCurrency_case
@@ -116,6 +116,11 @@ def base_text(rng):
         amt = f"{rng.choice([str(rng.randint(1, 900)), L.num(rng)])}{rng.choice('kKMGT')}"
         return rng.choice([f"{amt} {a}", f"{amt} {a} to {b}", f"salary = {amt} {a}\nsalary / 12", f"{amt} {a} + 10%", f"{amt} {a} + {rng.randint(1, 99)} {a}"]), {"salary"}
     if k < 0.55:
+        # the corpus of all properties' generators (English lines)
+        for _ in range(5):
+            lg, t = corpus.line(rng)
+            if lg == "en":
+                return t, set()
         return L.value_line(rng), set()
     if k < 0.65:
         # the same variable assigned twice, then used: every occurrence gets its own letter case
